@@ -160,4 +160,49 @@ theorem outer_contig (N : Nat) (out lhs rhs pre : List Nat) (n : Nat) (hN : 0 < 
     rw [Nat.succ_mul]
     exact Contig.append (ih (by omega)) (outer_row_contig N out lhs rhs pre n Q hN hsh hout hpos (by omega))
 
+/-! ### matmul: the inner steps of one output element tile a row of lhs and a column of rhs -/
+
+/-- registers then one zero-padded partial register tile `[base, base + K)`; `off s` / `tag s` describe step `s` -/
+theorem padded_row_contig (N K base : Nat) (hN : 0 < N) (idx : Nat → TIdx)
+    (h : ∀ s, s < oCs N K → idx s = ⟨if s * N + N ≤ K then Tag.PACKED else Tag.PAD (N - (K - K / N * N)), base + s * N⟩) :
+    Contig (fun s => (idx s).off) (fun s => outerLen N (idx s)) base (List.range (oCs N K)) (base + K) := by
+  have hn : K = K / N * N + K % N := by
+    have := Nat.div_add_mod K N; rw [Nat.mul_comm] at this; omega
+  have hmod := Nat.mod_lt K hN
+  have hsub : K - K / N * N = K % N := by omega
+  have hfull : Contig (fun s => (idx s).off) (fun s => outerLen N (idx s)) base (List.range' 0 (K / N)) (base + K / N * N) := by
+    apply Contig.arith N
+    intro k _ hk2
+    have hsj : k < K / N := by omega
+    have hle : k * N + N ≤ K := by
+      have : (k + 1) * N ≤ K / N * N := Nat.mul_le_mul_right N hsj
+      rw [Nat.succ_mul] at this; omega
+    rw [h k (by unfold oCs; omega)]
+    simp only [hle, if_true, Nat.sub_zero]
+    exact ⟨trivial, by simp [outerLen]⟩
+  rw [List.range_eq_range']
+  by_cases h0 : K % N = 0
+  · have hc : oCs N K = K / N := by unfold oCs; simp [h0]
+    rw [hc]
+    have e : base + K = base + K / N * N := by omega
+    rw [e]; exact hfull
+  · have hc : oCs N K = K / N + 1 := by unfold oCs; simp [h0]
+    rw [hc, ← List.range'_append (step := 1)]
+    simp only [Nat.one_mul, Nat.zero_add]
+    refine Contig.append hfull ?_
+    rw [List.range'_succ, List.range'_zero]
+    have hgt : ¬ ((K / N) * N + N ≤ K) := by omega
+    have hstep := h (K / N) (by rw [hc]; omega)
+    simp only [hgt, if_false, hsub] at hstep
+    have hk0 : ¬ (Tag.PAD (N - K % N) = Tag.PACKED) := by simp only [Tag.PAD, Tag.PACKED]; omega
+    have hlen : outerLen N (idx (K / N)) = K % N := by
+      rw [hstep]
+      unfold outerLen
+      rw [if_neg hk0]
+      simp only [Tag.PAD, Int.toNat_natCast]; omega
+    refine Contig.cons (by rw [hstep]) ?_
+    rw [hlen]
+    have e : base + K / N * N + K % N = base + K := by omega
+    rw [e]; exact Contig.nil _
+
 end NmVerif.Simd
